@@ -108,7 +108,25 @@ func nonCanonical(g *hx.Gen, b []byte) (string, []byte, bool) {
 	root.nodes(&all)
 	for try := 0; try < 8; try++ {
 		n := all[g.Rng.Intn(len(all))]
-		switch k := g.Rng.Intn(4); {
+		switch k := g.Rng.Intn(5); {
+		case k == 4:
+			// a long-form size with a leading zero byte (B9 00 40 … instead of B8 40 …)
+			var body []byte
+			small, large := byte(0x80), byte(0xB7)
+			if n.list {
+				small, large = 0xC0, 0xF7
+				for _, c := range n.sub {
+					body = append(body, c.enc()...)
+				}
+			} else {
+				body = n.str
+			}
+			if len(body) >= 56 {
+				h := head(small, large, len(body), false)
+				h = append([]byte{h[0] + 1, 0x00}, h[1:]...)
+				n.raw = append(h, body...)
+				return "noncanon-zero-padded-size", root.enc(), true
+			}
 		case k == 0 && !n.list && len(n.str) == 1 && n.str[0] < 0x80:
 			n.raw = []byte{0x81, n.str[0]}
 			return "noncanon-wrapped-byte", root.enc(), true
